@@ -36,9 +36,10 @@ Print Assumptions C10_eof_errors_incomplete.
    (every token-boundary cut, hence every newline cut).  What is proved:
    (a) for all inputs: the lemma for every token-level loop of the parser (redirections, the word/redirect loop
        of a simple command, for-word lists, case patterns, the for header) and the inductive step for the
-       statement loop Parser.stmts given the lemma for getStmt — the remaining mutual cases (getStmt,
-       gotStmtPipe and the compound commands) follow the same scheme with C10_eof_errors_incomplete but are not
-       mechanised;
+       statement loop Parser.stmts given the lemma for getStmt; Proofs/CoreGrammarProofs.v also has the inductive
+       steps for followStmts, block, subshell, while, if/elif, funcDecl, the && || loop, the | loop and getStmt
+       (11 of the 15 mutual cases: step_follow ... step_get). Open: gotStmtPipe, forClause, caseClause, caseItems
+       and the final assembly (same scheme: pre_g_bind + C10_eof_errors_incomplete);
    (b) the full statement for every token list of length <= 4, exhaustively (954,305 lists, every cut). *)
 
 Theorem C10_prefix_monotone_simple_command_partial : forall r px fuel o q first ts,
